@@ -62,3 +62,180 @@ pub fn key_id(id_header: &[u8], text: &[u8]) -> [u8; 33] {
     blake2b(cat(&[b"k4", id_header, text]).as_slice(), &mut o);
     o
 }
+
+// ------------------------------------------------------------------------------------------------ v4.public
+/// Ed25519 key expansion: seed -> (scalar, hash_prefix)   (RFC 8032 5.1.5; uninterpreted here)
+pub fn ed25519_expand(seed: &[u8; 32]) -> ([u8; 32], [u8; 32]) {
+    let mut o = [0u8; 64];
+    uf(alg::SHA512_EXPAND, true, seed, &[], &mut o);
+    let mut s = [0u8; 32];
+    s.copy_from_slice(&o[..32]);
+    let mut p = [0u8; 32];
+    p.copy_from_slice(&o[32..]);
+    (s, p)
+}
+/// Ed25519 public key of a secret scalar
+pub fn ed25519_pk(scalar: &[u8; 32]) -> [u8; 32] {
+    let mut o = [0u8; 32];
+    uf(alg::ED25519_PK, true, scalar, &[], &mut o);
+    vmodel_core::assume(ed25519_point_valid(&o)); // a public key is a valid curve point
+    o
+}
+/// uninterpreted predicate "b is the canonical encoding of a curve point"
+pub fn ed25519_point_valid(b: &[u8; 32]) -> bool {
+    let mut v = [0u8; 1];
+    uf(alg::ED25519_VALID, false, b, &[], &mut v);
+    v[0] & 1 == 1
+}
+/// uninterpreted predicate "s is a well-formed signature encoding (canonical S, decodable R)"
+pub fn ed25519_sig_well_formed(s: &[u8; 64]) -> bool {
+    let mut v = [0u8; 1];
+    uf(alg::ED25519_SIG_WF, false, s, &[], &mut v);
+    v[0] & 1 == 1
+}
+/// Ed25519 signature (deterministic: a function of the key pair and the message)
+pub fn ed25519_sign(scalar: &[u8; 32], prefix: &[u8; 32], msg: &[u8]) -> [u8; 64] {
+    let pk = ed25519_pk(scalar);
+    let mut k = [0u8; 64];
+    k[..32].copy_from_slice(&pk);
+    k[32..].copy_from_slice(prefix);
+    let mut o = [0u8; 64];
+    uf(alg::ED25519_SIG, true, &k, msg, &mut o);
+    vmodel_core::assume(ed25519_sig_well_formed(&o)); // a signature produced by Sign is well formed
+    o
+}
+/// Ed25519 verification, ideal-signature form: valid iff `sig` was produced by signing exactly `msg` under `pk`
+pub fn ed25519_verify(pk: &[u8; 32], msg: &[u8], sig: &[u8]) -> bool {
+    vmodel_core::was_output_of_kp(alg::ED25519_SIG, pk, msg, sig)
+}
+/// v4.public Sign: out = m ‖ Ed25519.sign(PAE(h, m, f, i)), h = "v4" ‖ suffix ‖ ".public."
+pub fn public_sign(scalar: &[u8; 32], prefix: &[u8; 32], m: &[u8], suffix: &[u8], f: &[u8], i: &[u8], out: &mut [u8]) {
+    assert!(out.len() == m.len() + 64);
+    let h = cat(&[b"v4", suffix, b".public."]);
+    let m2 = pae(&[h.as_slice(), m, f, i]);
+    let sig = ed25519_sign(scalar, prefix, m2.as_slice());
+    out[..m.len()].copy_from_slice(m);
+    out[m.len()..].copy_from_slice(&sig);
+}
+/// v4.public Verify: Some(|m|) iff the payload is m ‖ sig with sig valid for PAE(h, m, f, i)
+pub fn public_verify(pk: &[u8; 32], payload: &[u8], suffix: &[u8], f: &[u8], i: &[u8]) -> Option<usize> {
+    if payload.len() < 64 {
+        return None;
+    }
+    let ml = payload.len() - 64;
+    let h = cat(&[b"v4", suffix, b".public."]);
+    let m2 = pae(&[h.as_slice(), &payload[..ml], f, i]);
+    if ed25519_verify(pk, m2.as_slice(), &payload[ml..]) {
+        Some(ml)
+    } else {
+        None
+    }
+}
+
+// ------------------------------------------------------------------------------------------------ PASERK k4: PIE
+/// PIE key derivation (paserk operations/Wrap/pie.md, v2/v4): returns (Ek, n2, Ak)
+pub fn pie_keys(wk: &[u8; 32], n: &[u8; 32]) -> ([u8; 32], [u8; 24], [u8; 32]) {
+    let mut x = [0u8; 56];
+    blake2b_mac(wk, cat(&[&[0x80], n]).as_slice(), &mut x);
+    let mut ak = [0u8; 32];
+    blake2b_mac(wk, cat(&[&[0x81], n]).as_slice(), &mut ak);
+    let mut ek = [0u8; 32];
+    ek.copy_from_slice(&x[..32]);
+    let mut n2 = [0u8; 24];
+    n2.copy_from_slice(&x[32..]);
+    (ek, n2, ak)
+}
+/// PIE wrap with nonce n: out = t ‖ n ‖ c (|out| == 64 + |ptk|); header = ".local-wrap.pie." / ".secret-wrap.pie."
+pub fn pie_wrap(header: &[u8], wk: &[u8; 32], n: &[u8; 32], ptk: &[u8], out: &mut [u8]) {
+    assert!(out.len() == 64 + ptk.len());
+    let (ek, n2, ak) = pie_keys(wk, n);
+    out[32..64].copy_from_slice(n);
+    out[64..].copy_from_slice(ptk);
+    xchacha20_xor(&ek, &n2, &mut out[64..]);
+    let mut t = [0u8; 32];
+    blake2b_mac(&ak, cat(&[b"k4", header, n, &out[64..]]).as_slice(), &mut t);
+    out[..32].copy_from_slice(&t);
+}
+
+// ------------------------------------------------------------------------------------------------ PASERK k4: PBKW
+pub fn argon2id(pw: &[u8], salt: &[u8; 16], mem_bytes: u64, time: u32, para: u32) -> [u8; 32] {
+    let mut m: Buf<28> = Buf::new();
+    m.push(&((mem_bytes / 1024) as u32).to_be_bytes());
+    m.push(&time.to_be_bytes());
+    m.push(&para.to_be_bytes());
+    m.push(salt);
+    let mut k = [0u8; 32];
+    uf(alg::ARGON2ID, true, pw, m.as_slice(), &mut k);
+    k
+}
+/// PBKW wrap (v2/v4) with salt s and nonce n: out = s(16) ‖ mem(be64) ‖ time(be32) ‖ para(be32) ‖ n(24) ‖ edk ‖ t(32)
+pub fn pbkw_wrap(header: &[u8], pw: &[u8], s: &[u8; 16], mem_bytes: u64, time: u32, para: u32, n: &[u8; 24], ptk: &[u8], out: &mut [u8]) {
+    let l = ptk.len();
+    assert!(out.len() == 56 + l + 32);
+    let k = argon2id(pw, s, mem_bytes, time, para);
+    let mut ek = [0u8; 32];
+    blake2b(cat(&[&[0xFF], &k]).as_slice(), &mut ek);
+    let mut ak = [0u8; 32];
+    blake2b(cat(&[&[0xFE], &k]).as_slice(), &mut ak);
+    out[..16].copy_from_slice(s);
+    out[16..24].copy_from_slice(&mem_bytes.to_be_bytes());
+    out[24..28].copy_from_slice(&time.to_be_bytes());
+    out[28..32].copy_from_slice(&para.to_be_bytes());
+    out[32..56].copy_from_slice(n);
+    out[56..56 + l].copy_from_slice(ptk);
+    xchacha20_xor(&ek, n, &mut out[56..56 + l]);
+    let mut t = [0u8; 32];
+    blake2b_mac(&ak, cat(&[b"k4", header, &out[..56 + l]]).as_slice(), &mut t);
+    out[56 + l..].copy_from_slice(&t);
+}
+
+// ------------------------------------------------------------------------------------------------ PASERK k4: PKE
+pub fn x25519_pk_of_ed(ed_pk: &[u8; 32]) -> [u8; 32] {
+    let mut o = [0u8; 32];
+    uf(alg::X25519_PK, true, ed_pk, &[], &mut o);
+    o
+}
+/// X25519(sk_a, pk_b) as a commutative uninterpreted function of the two public points
+pub fn x25519_shared(pk_a: &[u8; 32], pk_b: &[u8; 32]) -> [u8; 32] {
+    let mut a_first = true;
+    let mut decided = false;
+    let mut i = 0;
+    while i < 32 {
+        if !decided && pk_a[i] != pk_b[i] {
+            a_first = pk_a[i] < pk_b[i];
+            decided = true;
+        }
+        i += 1;
+    }
+    let mut k = [0u8; 64];
+    if a_first {
+        k[..32].copy_from_slice(pk_a);
+        k[32..].copy_from_slice(pk_b);
+    } else {
+        k[..32].copy_from_slice(pk_b);
+        k[32..].copy_from_slice(pk_a);
+    }
+    let mut o = [0u8; 32];
+    uf(alg::X25519_DH, true, &k, &[], &mut o);
+    o
+}
+/// PKE seal (v2/v4) of the 32-byte data key `pdk` to the Ed25519 public key `pk` with ephemeral X25519 secret scalar `esk`:
+/// out = t(32) ‖ epk(32) ‖ edk(32)
+pub fn pke_seal(pk: &[u8; 32], esk: &[u8; 32], pdk: &[u8; 32], out: &mut [u8; 96]) {
+    let xpk = x25519_pk_of_ed(pk);
+    let epk = x25519_pk_of_ed(&ed25519_pk(esk));
+    let xk = x25519_shared(&epk, &xpk);
+    let mut ek = [0u8; 32];
+    blake2b(cat(&[b"\x01k4.seal.", &xk, &epk, &xpk]).as_slice(), &mut ek);
+    let mut ak = [0u8; 32];
+    blake2b(cat(&[b"\x02k4.seal.", &xk, &epk, &xpk]).as_slice(), &mut ak);
+    let mut n = [0u8; 24];
+    blake2b(cat(&[&epk, &xpk]).as_slice(), &mut n);
+    let mut edk = *pdk;
+    xchacha20_xor(&ek, &n, &mut edk);
+    let mut t = [0u8; 32];
+    blake2b_mac(&ak, cat(&[b"k4.seal.", &epk, &edk]).as_slice(), &mut t);
+    out[..32].copy_from_slice(&t);
+    out[32..64].copy_from_slice(&epk);
+    out[64..].copy_from_slice(&edk);
+}
